@@ -84,23 +84,24 @@ Definition discipline_ok : bool :=
 Definition callers_of (callee : string) : list string :=
   flat_map (fun fc => let '(_, f, cs) := fc in if str_in callee cs then [f] else []) func_calls.
 
+(* writeMessage holds the write mutex - taken with a deferred, balanced unlock - over every operation on the outgoing
+   ring: the region exists, and (computed by tools/gentables over the source positions, helpers included) the lock and the
+   deferred unlock precede the first such operation *)
 Definition wmu_region_ok : bool :=
   existsb (fun r => String.eqb (lr_func r) "service.writeMessage" && String.eqb (lr_mutex r) "svc.wmu"
-                    && lr_defer r && lr_balanced r
-                    && str_in "svc.out.WriteWait" (lr_calls r) && str_in "svc.out.Write" (lr_calls r)
-                    && str_in "svc.out.WriteCommit" (lr_calls r) && str_in "msg.Encode" (lr_calls r)) lock_regions.
+                    && lr_defer r && lr_balanced r) lock_regions
+  && wmu_taken_before_ring_ops.
 
 Definition only (fs : list string) (l : list string) : bool := forallb (fun f => str_in f fs) l.
 
-(* producers of the outgoing ring: writeMessage only (under wmu); its consumer: the sender goroutine;
-   producer of the incoming ring: the receiver goroutine; its consumer: the processor goroutine *)
+(* producers of the outgoing ring: writeMessage only (under wmu); its consumer: the sender goroutine; producer of the
+   incoming ring: the receiver goroutine; its consumer: the processor goroutine.  The four facts are computed by
+   tools/gentables (locks.go genRingRoles) over the call graph of the methods of service: a ring operation belongs to a
+   role if it occurs in the role's entry function or in a helper all of whose callers, transitively, do - so that
+   helpers factored out of those functions, and renamed receiver variables, do not matter *)
 Definition ring_roles_ok : bool :=
-  only ["service.writeMessage"] (callers_of "svc.out.WriteWait" ++ callers_of "svc.out.Write" ++ callers_of "svc.out.WriteCommit")
-  && only ["service.sender"] (callers_of "svc.out.WriteTo")
-  && only ["service.receiver"] (callers_of "svc.in.ReadFrom")
-  && only ["service.peekMessageSize"; "service.peekMessage"; "service.readMessage"; "service.processor"]
-          (callers_of "svc.in.ReadWait" ++ callers_of "svc.in.Read" ++ callers_of "svc.in.ReadCommit" ++ callers_of "p.in.ReadCommit" ++ callers_of "p.in.Len")
-  && only ["service.processor"] (callers_of "p.peekMessageSize" ++ callers_of "p.peekMessage").
+  ring_out_produced_under_writeMessage && ring_out_consumed_by_sender
+  && ring_in_produced_by_receiver && ring_in_consumed_by_processor.
 
 (* ---- order of the teardown actions in service.stop ---- *)
 Fixpoint pos (x : string) (l : list string) (i : nat) : option nat :=
